@@ -9,6 +9,7 @@ import Heathcliff.Proofs.C20J
 import Heathcliff.Proofs.C20K
 import Heathcliff.Proofs.C20M
 import Heathcliff.Proofs.C20N
+import Heathcliff.Proofs.C20O
 
 /- Property C20: homomorphic matrix products and convolutions equal plaintext ones, all shapes.
    Property theorems only (proofs are the helper lemmas of Heathcliff/Proofs/C20*.lean). -/
@@ -335,12 +336,61 @@ example : (do
     pure (out.getD 7 0)) = .ok (((List.range 5).map fun k => ((7 * (10 + k) + 3) % 97) * ((11 * (3 * k + 1) + 5) % 97)).sum % 97) := by
   decide +kernel
 
-/-- ... for `MatmulBoltCcDc`: NOT proved -/
+/-- ... for `MatmulBoltCcDc` (LHS by diagonals, RHS column-major).  Two hypotheses were missing in the first version of this statement:
+    `N < 2^64` (as above) and `0 < r`: the constructor accepts `r = 0` but `multiply` fails on the empty list of block products
+    (`bolt_cc_dc_r0_refused` below; the code panics in the same place, `item.unwrap()` — harness line `bolt_ccdc_r0`) -/
 def BoltCcDcStatement : Prop :=
-  ∀ (S : Type) [CommRing S] (m r n N : Nat) (h : BoltCc) (x w : Nat → S), BoltCc.newDc m r n N = .ok h → (∃ e, N = 2^e) →
+  ∀ (S : Type) [CommRing S] (m r n N : Nat) (h : BoltCc) (x w : Nat → S), BoltCc.newDc m r n N = .ok h → (∃ e, N = 2^e) → N < 2^64 →
+    0 < r →
     ∃ X W Y out, boltDcEncodeInputs h 0 x (m * r) = .ok X ∧ boltDcEncodeWeights h 0 w (r * n) = .ok W ∧
       boltDcMultiply h (· + ·) (· * ·) 0 X W = .ok Y ∧ boltDcDecodeOutputs h 0 Y = .ok out ∧
       ∀ i j, i < m → j < n → out.getD (i * n + j) 0 = ∑ k ∈ range r, x (i * r + k) * w (k * n + j)
+
+/-- ... PROVED -/
+theorem BoltCcDcStatement_proof : BoltCcDcStatement := by
+  intro S _ m r n N h x w hnew hpow hN hr
+  obtain ⟨X, W, Y, out, h1, h2, h3, h4, _, h6⟩ := HC.c20_boltDc_new hnew hpow hN hr x w
+  exact ⟨X, W, Y, out, h1, h2, h3, h4, h6⟩
+
+/-- the witness against the first version of the statement: m = 1, r = 0, n = 1, N = 2 is accepted by the constructor and the
+    model's `multiply` refuses (over ℕ with arithmetic modulo 17) -/
+theorem bolt_cc_dc_r0_refused :
+    (BoltCc.newDc 1 0 1 2).toOption.isSome = true ∧
+    (do let h ← BoltCc.newDc 1 0 1 2
+        let X ← boltDcEncodeInputs h 0 (fun _ => 0) 0
+        let W ← boltDcEncodeWeights h 0 (fun _ => 0) 0
+        boltDcMultiply h (fun a b => (a + b) % 17) (fun a b => (a * b) % 17) 0 X W) = .error .other := by
+  decide +kernel
+
+/-- **`MatmulBoltCcDc`, whole pipeline** for EVERY helper with `N = gsc·gap`, `gsc = 2^(g+1)`, `0 < m ≤ gap` (`c20_CcOK`) and `r > 0`:
+    all block pairs, `multiply` of the small helper (left shifts, then right shifts of the RHS; `spread_inputs` of the masked diagonal
+    segment; optional accumulators), `add_inplace` of the block products, column-major decode -/
+theorem bolt_cc_dc_whole : type_of% @HC.c20_boltDc_whole := @HC.c20_boltDc_whole
+theorem bolt_cc_dc_new : type_of% @HC.c20_boltDc_new := @HC.c20_boltDc_new
+theorem bolt_cc_dc_new_ok : type_of% @HC.c20_boltDcNew_ok := @HC.c20_boltDcNew_ok
+/-- `spread_inputs`: the masked segment of one column is copied onto every column -/
+theorem bolt_spread_spec : type_of% @HC.c20_boltSpread_spec := @HC.c20_boltSpread_spec
+/-- `MatmulBoltCcDcSmall::multiply` on arbitrary polynomials -/
+theorem bolt_cc_dc_multiply_spec : type_of% @HC.c20_dcMulSmall_spec := @HC.c20_dcMulSmall_spec
+/-- the column-major encoder / decoder shared by the helpers -/
+theorem bolt_col_major_encode_spec : type_of% @HC.c20_boltColMajor_spec := @HC.c20_boltColMajor_spec
+theorem bolt_col_major_decode_spec : type_of% @HC.c20_boltColMajorDecode_spec := @HC.c20_boltColMajorDecode_spec
+
+/-- non-vacuity: the constructor accepts 3×5·5×3 at N = 32 (block side 5, gap 8, four columns: two doublings in `spread_inputs`) and
+    5×3·3×7 at N = 16 (block side 5, gap 8, two columns, one block); the hypotheses of `bolt_cc_dc_new` are satisfiable -/
+example : BoltCc.newDc 3 5 3 32 = .ok ⟨32, 3, 5, 3, 5, 8, 4⟩ := by rfl
+example : BoltCc.newDc 5 3 7 16 = .ok ⟨16, 5, 3, 7, 5, 8, 2⟩ := by rfl
+example (x w : Nat → ℤ) := bolt_cc_dc_new (show BoltCc.newDc 3 5 3 32 = .ok ⟨32, 3, 5, 3, 5, 8, 4⟩ by rfl) ⟨5, rfl⟩ (by decide)
+  (by decide) x w
+/-- ... and the model's pipeline on 3×5·5×3 at N = 32 over ℤ/97: entry (2, 1) -/
+example : (do
+    let h ← BoltCc.newDc 3 5 3 32
+    let X ← boltDcEncodeInputs h 0 (fun i => (7 * i + 3) % 97) 15
+    let W ← boltDcEncodeWeights h 0 (fun i => (11 * i + 5) % 97) 15
+    let Y ← boltDcMultiply h (fun a b => (a + b) % 97) (fun a b => (a * b) % 97) 0 X W
+    let out ← boltDcDecodeOutputs h 0 Y
+    pure (out.getD 7 0)) = .ok (((List.range 5).map fun k => ((7 * (10 + k) + 3) % 97) * ((11 * (3 * k + 1) + 5) % 97)).sum % 97) := by
+  decide +kernel
 
 /-- the model's `bolt_cp` pipeline on a concrete instance (N = 8, 3×2·2×3 over ℤ/17): the schedule computes the product -/
 example : (do
